@@ -9,4 +9,6 @@ PROPERTY SFrame
 PROPERTY SImmutable
 PROPERTY SPureIsStutter
 PROPERTY SDerivedSameTable
+PROPERTY SOrphans
+PROPERTY SAbortOnlySetsFlag
 CHECK_DEADLOCK FALSE
